@@ -43,6 +43,7 @@ type baselineFns struct {
 	sigs   map[string]string   // reviewed function -> package|receiver|exported|signature
 	prints map[string][]string // reviewed function -> what its body mentions (callees, string literals)
 	inl    map[string]bool     // reviewed function was a single `return <expr>` (read as that expression)
+	types  map[string]bool     // named types of the reviewed tree ("pkg.Type")
 }
 
 func (w *World) loadBaseline(verifDir string) error {
@@ -56,6 +57,7 @@ func (w *World) loadBaseline(verifDir string) error {
 			Fp  []string `json:"fp"`
 			Inl bool     `json:"inl,omitempty"`
 		} `json:"functions"`
+		Types []string `json:"types"`
 	}
 	if err := json.Unmarshal(b, &doc); err != nil {
 		return err
@@ -64,6 +66,10 @@ func (w *World) loadBaseline(verifDir string) error {
 	w.base.sigs = map[string]string{}
 	w.base.prints = map[string][]string{}
 	w.base.inl = map[string]bool{}
+	w.base.types = map[string]bool{}
+	for _, t := range doc.Types {
+		w.base.types[t] = true
+	}
 	for f, d := range doc.Functions {
 		if d.Inl {
 			w.base.inl[f] = true
@@ -88,11 +94,32 @@ func (w *World) dumpFunctions() []byte {
 		}
 		ks[k] = ent
 	}
+	var typeNames []string
+	for _, p := range w.Pkgs {
+		if !isAnalysedPkg(p.PkgPath) {
+			continue
+		}
+		sc := p.Types.Scope()
+		for _, nm := range sc.Names() {
+			if _, ok := sc.Lookup(nm).(*types.TypeName); ok {
+				typeNames = append(typeNames, short(p.PkgPath)+"."+nm)
+			}
+		}
+	}
+	sort.Strings(typeNames)
 	b, _ := json.MarshalIndent(map[string]any{
+		"types":     typeNames,
 		"_comment":  "functions of gleece on the tree the rules were reviewed against (with package|receiver|exported|signature); a function not listed here is analysed as if inlined into its callers, unless it is a listed function under a new name (checker/inline.go)",
 		"functions": ks,
 	}, "", " ")
 	return append(b, '\n')
+}
+
+// isNewTypeName: "pkg.Type" names a type the reviewed tree did not have (a tuple of values a
+// refactoring passes around together, a frame of an explicit stack): its fields are not state
+// or inputs of their own - what is stored into them is.
+func (w *World) isNewTypeName(qual string) bool {
+	return w != nil && w.base.loaded && len(w.base.types) > 0 && !w.base.types[qual]
 }
 
 // sigChanged: a reviewed function whose parameter or result types are no longer the reviewed
@@ -1082,11 +1109,8 @@ func (w *World) predicateAnswerOnlyVia(h *ssa.Function, idx int, pol bool, legit
 // rules that look for a construct "in fi" find it wherever it was moved to.
 func (w *World) inspectRegion(fi *FuncInfo, visit func(ast.Node) bool) {
 	for _, f := range w.astRegion(fi) {
-		// the visitors resolve names with fi's package information: only syntax of that
-		// package can be handed to them
-		if f.Pkg == fi.Pkg {
-			ast.Inspect(f.Decl, visit)
-		}
+		// (the type information of all analysed packages is one united view, see loadWorld)
+		ast.Inspect(f.Decl, visit)
 	}
 }
 
